@@ -1,0 +1,9 @@
+//go:build verif
+
+// Contracts for package iterator, read as text by the verification-condition generator in /verif.
+// This file contains no code; with the build tag off it is not part of the build at all.
+
+package iterator
+
+//@ structural iterator-bigint-ops: callees iterator into math/big: none
+//@ structural iterator-apd-ops: callees iterator into github.com/cockroachdb/apd/v2: none
